@@ -653,3 +653,203 @@ def truncation_rule(cx, rep, rid, methods):
                "positive control: canary/ts/truncate.ts must yield exactly the TruncatingRuntype match (got %s)" % sorted(chits), "canary/ts/truncate.ts")
     except Exception as e:
         rep.ob(rid, "control/canary-truncation", False, "positive control could not be evaluated: %s" % e, "canary/ts/truncate.ts")
+
+
+HOLE_SKIPPERS = ("every", "some", "filter", "flatMap", "reduce", "reduceRight", "map", "forEach")
+
+
+def hole_skipping_reads(fam, methods):
+    """[(class, method, call node, text)]: an Array iteration method that does not visit the holes of a sparse array
+    (every / some / filter / flatMap / reduce / map / forEach) applied to the input value itself or to a value reached
+    from it - not to a dense array the method made (Object.keys(..), Array.from(..), a literal)"""
+    out = []
+    mod = fam.mod
+    T_ = set()
+    CN_ = [None]
+
+    def dense(e, al, depth=0):
+        e = unparen(e)
+        t = e.get("type")
+        if t == "ArrayExpression":
+            return True
+        if t == "CallExpression":
+            c = s(e["callee"])
+            if c in ("Object.keys", "Object.entries", "Object.values", "Array.from", "Array.of", "Object.getOwnPropertyNames"):
+                return True
+            mc = method_call(e)
+            if mc and mc[1] in ("filter", "map", "flatMap", "flat", "concat", "sort", "split", "slice"):
+                # results of the array methods are dense only if their receiver is (slice / concat keep holes)
+                return mc[1] in ("filter", "flatMap", "split", "flat") or dense(mc[0], al, depth)
+            # a local helper: judged by what it returns (arguments substituted for its parameters)
+            r = tsast.resolve_local_call(mod, CN_[0], e) if depth < 3 else None
+            if r is not None:
+                body, _sub = tsast.inline_clone(r[0], e)
+                rets = [x for x in tsast.walk_no_nested_fn(body) if x["type"] == "ReturnStatement" and x.get("argument") is not None]
+                hal = dict(al)
+                hal.update(local_aliases({"type": "FunctionExpression", "body": body, "params": []}))
+                if rets and all(dense(x["argument"], hal, depth + 1) for x in rets):
+                    return True
+            # a helper that is handed dense arrays / values that do not come from the input returns nothing sparse
+            args = [a["expression"] for a in e.get("arguments") or []]
+            return bool(args) and all(dense(a, al, depth + 1) or not mentions(a, T_) for a in args)
+        if t == "MemberExpression" and s(e).startswith("this."):
+            return True      # arrays of the type itself (members, prefix items) are built dense by the generated code
+        if t == "Identifier" and e["value"] in al and depth < 4:
+            return dense(al[e["value"]], al, depth + 1)
+        if t == "TsAsExpression" or t == "TsNonNullExpression":
+            return dense(e["expression"], al, depth)
+        return False
+    for cname in sorted(fam.concrete()):
+        for mname in methods:
+            _, m = fam.resolve_method(cname, mname)
+            if not m or m["function"].get("body") is None:
+                continue
+            fn = m["function"]
+            ps = fn_params(fn)
+            if len(ps) < 2 or not ps[1]:
+                continue
+            T = taint(fn, [ps[1]])
+            T_ = T
+            CN_[0] = cname
+            al = local_aliases(fn)
+            for n in walk(fn):
+                if n["type"] != "CallExpression":
+                    continue
+                mc = method_call(n)
+                if not mc or mc[1] not in HOLE_SKIPPERS:
+                    continue
+                recv = unparen(mc[0])
+                while recv.get("type") in ("TsAsExpression", "TsNonNullExpression", "ParenthesisExpression"):
+                    recv = unparen(recv["expression"])
+                if recv.get("type") not in ("Identifier", "MemberExpression"):
+                    continue
+                if not mentions(recv, T) or dense(recv, al):
+                    continue
+                if mc[1] == "forEach":
+                    ka = known_atoms(fn, n)
+                    if not any(a_.startswith("Array.isArray(") and v_ is True for a_, v_ in ka.items()):
+                        continue      # Set / Map forEach visits every member
+                out.append((cname, mname, n, "%s.%s(..)" % (s(recv), mc[1])))
+    return out
+
+
+def hole_skipping_rule(cx, rep, rid, methods):
+    """`validate` and `reportDecodeError` must look at EVERY index of an input array: a hole of a sparse array
+    (`[1, , 3]`, `new Array(3)`, `delete a[1]`) reads as `undefined` through `a[i]` and `for..of`, but
+    every / some / filter / flatMap / reduce / map / forEach never call their callback for it.  A validator that walks
+    the input with one of them accepts sparse arrays whose element type does not admit undefined; a reporter that does
+    returns no error for an input validate() rejected.  Expected count on the repository: 0; the canary must match."""
+    fam = Family(cx)
+    hits = hole_skipping_reads(fam, methods)
+    for cname, mname, n, txt in hits:
+        rep.ob(rid, "%s.%s/%s" % (cname, mname, txt), False,
+               "%s.%s walks the input with %s, which skips the holes of a sparse array: the elements `a[i]` that read as undefined are never shown to the item validator, so %s" % (
+                   cname, mname, txt, "a sparse array is accepted as an array of any element type" if mname == "validate" else "an input validate() rejected because of a hole gets an empty error list"),
+               fam.mod.loc(n), sample={"class": cname, "method": mname, "iteration": txt})
+    n_m = sum(1 for cname in fam.concrete() for mname in methods if fam.resolve_method(cname, mname)[1])
+    rep.ob(rid, "scanned", True, sample={"class_methods_scanned": n_m, "hole_skipping_walks_of_the_input": len(hits)})
+    rep.floor(rid, "class methods scanned for hole-skipping walks", n_m, 5)
+    try:
+        cfam = Family(cx, "canary/ts/sparse.ts")
+        chits = {(c, m_) for c, m_, _, _ in hole_skipping_reads(cfam, ["validate", "reportDecodeError"])}
+        rep.ob(rid, "control/canary-sparse", chits == {("SkippingArrayRuntype", "validate"), ("SkippingArrayRuntype", "reportDecodeError")},
+               "positive control: canary/ts/sparse.ts must yield exactly the two SkippingArrayRuntype matches (got %s)" % sorted(chits), "canary/ts/sparse.ts")
+    except Exception as e:
+        rep.ob(rid, "control/canary-sparse", False, "positive control could not be evaluated: %s" % e, "canary/ts/sparse.ts")
+
+
+IFACE_RESULT_METHODS = ("reportDecodeError", "parseAfterValidation")
+
+
+def unbounded_spreads(fam, methods):
+    """[(class, method, node, text)]: a call `f(...xs)` / `new C(...xs)` whose spread operand has a length that grows
+    with the INPUT - the input itself, a slice / map / filter of it, Object.keys of it, or the list a child's
+    reportDecodeError / parseAfterValidation returned (one entry per invalid item).  Arrays whose length is fixed by
+    the TYPE (this.<field> and what is mapped from it) are fine."""
+    out = []
+    mod = fam.mod
+    for cname in sorted(fam.concrete()):
+        for mname in methods:
+            _, m = fam.resolve_method(cname, mname)
+            if not m or m["function"].get("body") is None:
+                continue
+            fn = m["function"]
+            ps = fn_params(fn)
+            if len(ps) < 2 or not ps[1]:
+                continue
+            T = taint(fn, [ps[1]])
+            al = local_aliases(fn)
+
+            def unbounded(e, depth=0):
+                e = unparen(e)
+                t = e.get("type")
+                while t in ("TsAsExpression", "TsNonNullExpression"):
+                    e = unparen(e["expression"])
+                    t = e.get("type")
+                if t == "Identifier":
+                    if e["value"] in al and depth < 5:
+                        return unbounded(al[e["value"]], depth + 1)
+                    return "the input" if mentions(e, T) else None
+                if t == "CallExpression":
+                    mc = method_call(e)
+                    if mc and mc[1] in IFACE_RESULT_METHODS:
+                        return "the result of %s()" % mc[1]
+                    if mc and mc[1] in ("map", "filter", "slice", "concat", "flat", "flatMap", "reverse", "sort", "subarray"):
+                        r = unbounded(mc[0], depth)
+                        if r:
+                            return r
+                        if mc[1] in ("flatMap", "concat"):
+                            for a in mc[2]:
+                                if any(method_call(x) and method_call(x)[1] in IFACE_RESULT_METHODS for x in walk(a) if x["type"] == "CallExpression"):
+                                    return "results of child calls"
+                        return None
+                    if s(e["callee"]) in ("Object.keys", "Object.entries", "Object.values", "Array.from") and e["arguments"]:
+                        return unbounded(e["arguments"][0]["expression"], depth)
+                    return None
+                if t == "MemberExpression":
+                    if s(e).startswith("this."):
+                        return None
+                    return "the input" if mentions(e, T) else None
+                if t == "ArrayExpression":
+                    for el in e["elements"]:
+                        if el and el.get("spread") and unbounded(el["expression"], depth):
+                            return unbounded(el["expression"], depth)
+                    return None
+                return None
+            for n in tsast.walk_inl(mod, cname, fn, depth=2):
+                if n["type"] not in ("CallExpression", "NewExpression"):
+                    continue
+                for a in n.get("arguments") or []:
+                    if a.get("spread"):
+                        why = unbounded(a["expression"])
+                        if why:
+                            out.append((cname, mname, n, "%s(...%s)" % (s(n["callee"]), s(a["expression"])[:40]), why))
+    return out
+
+
+def unbounded_spread_rule(cx, rep, rid, methods):
+    """A spread in call position passes every element as an argument; engines cap the number of arguments (about 10^5),
+    beyond it the call throws RangeError.  In validate / parseAfterValidation / reportDecodeError that turns a large
+    input into an exception that is neither the verdict nor the documented parse error (found on the unchanged tree:
+    `acc.push(...errors)` with one error per invalid item, repaired by 6b09ce4)."""
+    fam = Family(cx)
+    hits = unbounded_spreads(fam, methods)
+    seen = set()
+    for cname, mname, n, txt, why in hits:
+        key = "%s.%s/%s" % (cname, mname, txt)
+        if key in seen:
+            continue
+        seen.add(key)
+        rep.ob(rid, key, False,
+               "%s.%s calls %s: the spread operand is %s, whose length grows with the input, so an input with more than ~10^5 such elements makes %s throw RangeError (maximum call stack / argument count) instead of answering" % (cname, mname, txt, why, mname),
+               fam.mod.loc(n), sample={"class": cname, "method": mname, "call": txt, "length_from": why})
+    n_m = sum(1 for cname in fam.concrete() for mname in methods if fam.resolve_method(cname, mname)[1])
+    rep.ob(rid, "scanned", True, sample={"class_methods_scanned": n_m, "input_sized_spreads": len(seen)})
+    rep.floor(rid, "class methods scanned for input-sized spreads", n_m, 5)
+    try:
+        cfam = Family(cx, "canary/ts/spread.ts")
+        chits = {(c, m_) for c, m_, _, _, _ in unbounded_spreads(cfam, ["reportDecodeError", "parseAfterValidation"])}
+        rep.ob(rid, "control/canary-spread", chits == {("SpreadingRuntype", "reportDecodeError"), ("SpreadingRuntype", "parseAfterValidation")},
+               "positive control: canary/ts/spread.ts must yield exactly the two SpreadingRuntype matches (got %s)" % sorted(chits), "canary/ts/spread.ts")
+    except Exception as e:
+        rep.ob(rid, "control/canary-spread", False, "positive control could not be evaluated: %s" % e, "canary/ts/spread.ts")
